@@ -270,10 +270,49 @@ def write_evidence(prop, tier, seed, cov, assumptions, wall, violations):
     os.replace(tmp, os.path.join(EVID, prop + '.json'))
 
 
+TERMINATION_CLAIMED = ('C06', 'C07')     # properties whose text says the code terminates on every input
+
+
+def _watchdog(prop, tier, seed, t0, limit):
+    """last line of defence for the properties that claim termination: a stage of the check (translator probe, recorder,
+    correspondence, findings replay) that calls into the code under test and never comes back must not leave a check
+    that never returns. Inside the shards `deadline` reports the hanging input; this fires only when that did not."""
+    import threading
+
+    def fire():
+        try:
+            path = write_replay(prop, seed, {'property': prop, 'case': None, 'broken': [
+                'termination: the check did not finish within %d s (normally about a minute): a call into the code under '
+                'test (parser / sanitizer) made by the translator, the recorder or a correspondence stage never returned' % limit]})
+            write_evidence(prop, tier, seed, {'evaluations': 0, 'distinct_nontrivial': 0, 'obligations': 0, 'discharged': 0,
+                                              'rule': 'watchdog fired before the run completed', 'samples': ['(none: the run did not complete)'],
+                                              'checker_cmd': 'lake build', 'trusted_base': ['see DESIGN.md section 3'],
+                                              'explanation': 'the check was ended by its watchdog after %d s' % limit},
+                           [], time.time() - t0, 1)
+            print('BROKEN: termination: no result after %d s' % limit)
+            print('VIOLATION property=%s replay=%s no-failing-input-found' % (prop, path))
+            sys.stdout.flush()
+        finally:
+            try:
+                import signal
+                for c in multiprocessing.active_children():
+                    c.kill()
+                os.killpg(os.getpgid(0), signal.SIGTERM) if os.environ.get('VERIF_WATCHDOG_KILLPG') else None
+            finally:
+                os._exit(1)
+    t = threading.Timer(limit, fire)
+    t.daemon = True
+    t.start()
+    return t
+
+
 def check(prop, tier, seed, replay=None):
     from harness import stage, extract_tables
     t0 = time.time()
     ctx = Ctx(prop, tier, seed)
+    if prop in TERMINATION_CLAIMED and not replay:
+        limit = int(os.environ.get('VERIF_HANG_LIMIT') or (7200 if tier == 'thorough' else 1500))
+        _watchdog(prop, tier, seed, t0, limit)
     modname = 'harness.props.' + prop.lower()
     try:
         stage.stage('c')
